@@ -361,7 +361,11 @@ func (h *Hist) OpAuthorize() AuthResult {
 		h.W.Logf("authorize foreign signer=%s -> %s", signer.Role, r)
 		return r
 	default: // submission for a banned id (if any), else duplicate
-		for id := range h.N.Model.Bans {
+		if ids := mapKeysU32(h.N.Model.Bans); len(ids) > 0 {
+			id := ids[0]
+			if len(ids) > 1 {
+				id = ids[c.Int("banned-id", len(ids))]
+			}
 			a := StdAuth(h.GCA, id, Key(fmt.Sprintf("again%d", id)), 5)
 			r := h.N.DoAuthorize(a)
 			h.W.Logf("authorize banned id=%d -> %s", id, r)
@@ -447,7 +451,8 @@ func (h *Hist) applyRotations(check bool) {
 		if c.postOff != c.offset+2016 {
 			h.W.Fail(h.Rule+".rotate", "offset", "offset went from %d to %d in one rotation", c.offset, c.postOff)
 		}
-		for id, pre := range c.reports {
+		for _, id := range mapKeysU32(c.reports) {
+			pre := c.reports[id]
 			post, ok := c.postRep[id]
 			if !ok {
 				h.W.Fail(h.Rule+".rotate", "lost-device", "device %d lost its window during a rotation", id)
@@ -513,8 +518,8 @@ func (h *Hist) applyRotations(check bool) {
 func pre2val(r glow.EquipmentReport) uint64 { return r.PowerOutput }
 
 func idOfKey(eq map[uint32]glow.EquipmentAuthorization, k glow.PublicKey) (uint32, bool) {
-	for id, a := range eq {
-		if a.PublicKey == k {
+	for _, id := range mapKeysU32(eq) {
+		if eq[id].PublicKey == k {
 			return id, true
 		}
 	}
@@ -624,7 +629,8 @@ func restartEqual(a, b *server.VerifSnap) error {
 	if len(a.Reports) != len(b.Reports) {
 		return fmt.Errorf("report windows differ after restart")
 	}
-	for id, x := range a.Reports {
+	for _, id := range mapKeysU32(a.Reports) {
+		x := a.Reports[id]
 		y := b.Reports[id]
 		if len(x) != len(y) {
 			return fmt.Errorf("device %d holds %d slots before and %d after restart", id, len(x), len(y))
